@@ -38,6 +38,12 @@ func ejDecodeAgrees(data []byte, isFlag bool, referenceDump string) string {
 		if flagDumpJSON(&f) != referenceDump {
 			return "easyjson decode path yields a different flag"
 		}
+		used := usedFlagDestination()
+		l2 := jlexer.Lexer{Data: data}
+		used.UnmarshalEasyJSON(&l2)
+		if l2.Error() == nil && flagDumpJSON(&used) != referenceDump {
+			return "easyjson decode into a previously used destination yields a different flag"
+		}
 		return ""
 	}
 	var s ldmodel.Segment
@@ -47,6 +53,12 @@ func ejDecodeAgrees(data []byte, isFlag bool, referenceDump string) string {
 	}
 	if segDumpJSON(&s) != referenceDump {
 		return "easyjson decode path yields a different segment"
+	}
+	usedS := usedSegmentDestination()
+	l2 := jlexer.Lexer{Data: data}
+	usedS.UnmarshalEasyJSON(&l2)
+	if l2.Error() == nil && segDumpJSON(&usedS) != referenceDump {
+		return "easyjson decode into a previously used destination yields a different segment"
 	}
 	return ""
 }
